@@ -26,6 +26,12 @@ META = {
              "of the spec's option table that has an admissible value Python treats as false - 0, all-zero arrays - is in the lattice); "
              "every emitted case is replayed into the real Deconvolution1D (incl. legacy), Deconvolution2D, Heat1D, "
              "Poisson1D, Abel1D, WangCubic with scripted global normal draws, omitting the arguments that are not given. "
+             "Legacy form: use_legacy is an option field of the sweep; the legacy operator of every custom PSF array (ramp, "
+             "one-sided, with zeros, symmetric, random floats; even dims - odd dims are refused) is the periodic convolution of Conv.tla "
+             "with centre tap dim div 2, i.e. the operator of the non-legacy form for the same array (invariants "
+             "LegacyIsSameForwardModel, SymmetricKernelCannotTell; deviation LegacyCorrelation refuted on an asymmetric kernel and not "
+             "refuted on symmetric ones); get_matrix, forward(e_j), forward(x), exactData, data / likelihood relations; every documented "
+             "legacy kernel (Gauss, sinc, prolate, vonMises) with PSF_param given (default and other values) / not given. "
              "Part D of TestProblems.tla: the field options of Poisson1D / Heat1D / Abel1D (field_type None / 'KL' / 'KL_Full' / 'Step' / "
              "'CustomKL' / a Geometry OBJECT of each kind incl. a caller-defined class, field_params, map / imap resp. KL_map / KL_imap "
              "given or not) are <given, value> pairs resolved by the action SelectGeometry into geometry objects of the heap (base = "
@@ -42,7 +48,7 @@ META = {
              "behaviour is replayed into one real object: whatever is handed out after a reassignment refers to the same model, the "
              "CURRENT data and prior, and fetching changes nothing."),
     "note": ("Bounded sizes (1-D dim<=6/7, 2-D dim<=3/4). Not asserted because undocumented (recorded as observations): "
-             "orientation (convolution vs correlation) of the legacy circulant matrix for a custom PSF, position of the Defocus "
+             "position of the Defocus "
              "PSF support, the definition of the SNR option (only: one scalar sigma shared by data and likelihood), number of "
              "heat time steps (read from the public time grid). The expansions themselves (KL / Step par2fun) belong to C13; here the "
              "SELECTION of the geometry and the application of the map are swept; the class an Abel1D field_type STRING creates is not "
@@ -189,6 +195,9 @@ def psf2_named(name, m, param, offset=0):
     return P / P.sum()
 
 
+LEGACY_DEFAULT_PARAM = {"Gauss": 10, "sinc": 15, "prolate": 15, "vonMises": 5}
+
+
 def psf_legacy(name, n, param):
     """legacy circulant generator written as a PSF array centred at n/2 (docstring of _getCirculantMatrix)"""
     d = np.abs(np.arange(n) - n // 2) / n
@@ -212,35 +221,29 @@ def check_conv1d(ctx, c, legacy_seen):
         with _quiet(), _scripted():
             tp = cuqi.testproblem.Deconvolution1D(dim=n, PSF=P, BC=BC1DOC[bc], phantom=np.arange(1.0, n + 1))
         _compare_operator(ctx, "deconv1d", key, case, A, tp.model, 1e-12)
-    # legacy form: periodic, even dim, PSF of length dim; orientation of a custom PSF is not documented -> either
+    # legacy form (use_legacy=True: "the legacy matrix representation of the forward model"): periodic, even dim (odd dims are
+    # refused), PSF of length dim - the SAME operator as the non-legacy form for the same array: the periodic convolution of
+    # the specification, centre tap dim div 2.  The exact transpose (correlation) gets its own signature (finding C17-F3),
+    # any other mismatch is deconv1d_legacy/matrix/...
     if bc == "periodic" and n % 2 == 0 and m == n:
         with _quiet(), _scripted():
             tp = cuqi.testproblem.Deconvolution1D(dim=n, PSF=P, use_legacy=True, phantom=np.arange(1.0, n + 1))
-        M = _dense(tp.model.get_matrix())
-        ctx.case(("deconv1d_legacy", "matrix", key))
-        if np.allclose(M, A, atol=1e-12):
-            orient = "conv"
-        elif np.allclose(M, A.T, atol=1e-12):
-            orient = "corr"
-        else:
-            orient = None
-            ctx.mismatch("deconv1d_legacy/matrix/" + key, case, "legacy matrix is neither the periodic convolution with the PSF "
-                         "(centre dim/2) nor its transpose", expected=A, observed=M)
-        if orient and c["transpose_visible"]:
-            legacy_seen.setdefault(orient, 0)
-            legacy_seen[orient] += 1
+        _compare_operator(ctx, "deconv1d_legacy", key, dict(case, legacy=True), A, tp.model, 1e-12)
+        legacy_seen["asymmetric" if c["transpose_visible"] else "symmetric"] = legacy_seen.get("asymmetric" if c["transpose_visible"] else "symmetric", 0) + 1
 
 
 def check_named1d(ctx, Jcase, name, param, size_arg, legacy=False):
     """named PSF through its sampled values: the spec's index map J applied to the sampled PSF"""
     import cuqi
     n, m, bc = Jcase["n"], Jcase["m"], Jcase["bc"]
-    key = "n=%d/m=%d/psf=%s(%g)/bc=%s" % (n, m, name, param, bc)
+    key = "n=%d/m=%d/psf=%s(%s)/bc=%s" % (n, m, name, "default" if param is None else "%g" % param, bc)
     case = {"kind": "named1d", "n": n, "m": m, "bc": bc, "psfname": name, "param": param, "size_arg": size_arg, "legacy": legacy}
     if legacy:
-        P = psf_legacy(name, n, param)
+        # PSF_param not given (None): the documented defaults of the legacy kernels 10 (Gauss), 15 (sinc / prolate), 5 (vonMises)
+        P = psf_legacy(name, n, LEGACY_DEFAULT_PARAM[name] if param is None else param)
+        kw = {} if param is None else {"PSF_param": param}
         with _quiet(), _scripted():
-            tp = cuqi.testproblem.Deconvolution1D(dim=n, PSF=name, PSF_param=param, use_legacy=True)
+            tp = cuqi.testproblem.Deconvolution1D(dim=n, PSF=name, use_legacy=True, **kw)
         A = mat_from_J(Jcase["J"], P, n)
         _compare_operator(ctx, "deconv1d_legacy", key, case, A, tp.model, 1e-12, allow_transposed_sig=False)
         return
@@ -644,12 +647,6 @@ def check_problem(ctx, c, legacy_match):
         with _quiet():
             A_obs = _dense(tp.model.get_matrix())
         conforms = A_obs.shape == A_spec.shape and np.allclose(A_obs, A_spec, atol=1e-9)
-        if p == "Deconvolution1D_legacy":
-            lk = (c["n"], _argkey(c, "psf"))
-            if not conforms:
-                legacy_match.setdefault(lk, False)
-                return False          # the other orientation variant of the same option is the one to replay
-            legacy_match[lk] = True
     ctx.case(("problem", key))
     ctx.facets[fam] = ctx.facets.get(fam, 0) + 1
     for k in c["falsy"]:
@@ -659,6 +656,13 @@ def check_problem(ctx, c, legacy_match):
         ctx.mismatch(sig("operator"), case, "the model is not the convolution with the GIVEN point-spread function "
                      "(given value: %s)" % ", ".join("%s=%s" % (k, _argkey(c, k)) for k in ("psf", "psfparam") if _given(c, k)),
                      expected=A_spec, observed=A_obs)
+    elif numeric and not conforms and p == "Deconvolution1D_legacy":
+        # (the legacy lattice has kernels that are not part of the operator sweep of Conv.tla: reported here; the exact
+        #  transpose = correlation has its own signature, finding C17-F3; the relations below use the observed operator)
+        tr = A_obs.shape == A_spec.T.shape and np.allclose(A_obs, A_spec.T, atol=1e-9)
+        ctx.mismatch(sig("operator_transposed" if tr else "operator"), case,
+                     "the legacy matrix is " + ("the TRANSPOSE (correlation) of" if tr else "not") + " the periodic convolution with the given PSF "
+                     "(the forward model of the non-legacy form for the same array)", expected=A_spec, observed=A_obs)
     # --- Part D: the field options (geometry selection, map applied for every form of field_type) ---
     if c.get("field", {}).get("fcase"):
         from cuqiverif import c17_field
@@ -841,7 +845,8 @@ DEVIATIONS = [("Conv", "Conv.deviation.cfg", "ColumnsAreConv", ()),
               ("TestProblems", "TestProblems.dev_GetComponentsCopiesData.cfg", "SameData", ("Conv.tla",)),
               ("TestProblems", "TestProblems.dev_OtherPhantom.cfg", "ExactDataIsModelOfExactSolution", ("Conv.tla",)),
               ("TestProblems", "TestProblems.dev_TruthinessDefault.cfg", "GivenIsUsed", ("Conv.tla",)),
-              ("TestProblems", "TestProblems.dev_GeometryObjectSkipsMap.cfg", "MapGivenIsApplied", ("Conv.tla",))]
+              ("TestProblems", "TestProblems.dev_GeometryObjectSkipsMap.cfg", "MapGivenIsApplied", ("Conv.tla",)),
+              ("TestProblems", "TestProblems.dev_LegacyCorrelation.cfg", "LegacyIsSameForwardModel", ("Conv.tla",))]
 
 ACTIONS = ["ResolveOptions", "SelectGeometry", "BuildModel", "MakeExact", "MakeDataDist", "SampleData", "MakeLikelihood", "Assemble", "GetComponents"]
 
@@ -863,7 +868,9 @@ def replay_conv(ctx, cases, tier, only=None):
     for c in c2:
         check_conv2d(ctx, c)
     if legacy_seen:
-        ctx.observe("legacy_custom_psf_orientation", legacy_seen)
+        ctx.observe("legacy_custom_psf_kernels_compared", legacy_seen)
+    if not legacy_seen.get("asymmetric") and not ctx.violations:
+        raise MachineryError("no asymmetric custom PSF was compared in the legacy form")
     # named PSFs / random float PSFs through the spec's index map (one J per (n, m, bc))
     J1 = {(c["n"], c["m"], c["bc"]): c for c in c1 if c["psfname"] == "ramp"}
     J2 = {(c["n"], c["m"], c["bc"]): c for c in c2 if c["psfname"] == "ramp"}
@@ -888,8 +895,17 @@ def replay_conv(ctx, cases, tier, only=None):
     # legacy named PSFs (even dim, periodic)
     for (n, m, bc), jc in sorted(J1.items()):
         if bc == "periodic" and m == n and n % 2 == 0:
-            for name, param in (("Gauss", 10), ("sinc", 15), ("prolate", 3), ("vonMises", 5)):
+            # every documented legacy kernel, PSF_param given (default value, another value) / not given
+            for name, param in (("Gauss", 10), ("sinc", 15), ("prolate", 3), ("vonMises", 5),
+                                ("Gauss", 4), ("sinc", 7), ("vonMises", 3), ("Gauss", None), ("sinc", None), ("prolate", None), ("vonMises", None)):
                 check_named1d(ctx, jc, name, param, None, legacy=True)
+            # seeded random float kernel (asymmetric custom ndarray) in the legacy form
+            P = np.round(rng.uniform(-1, 2, size=n), 3)
+            import cuqi
+            with _quiet(), _scripted():
+                tp = cuqi.testproblem.Deconvolution1D(dim=n, PSF=P, use_legacy=True, phantom=np.arange(1.0, n + 1))
+            _compare_operator(ctx, "deconv1d_legacy", "n=%d/m=%d/psf=random/bc=%s" % (n, m, bc),
+                              {"kind": "random1d", "n": n, "m": m, "bc": bc, "psf": P.tolist(), "legacy": True}, mat_from_J(jc["J"], P, n), tp.model, 1e-12)
     n2max = max(k[0] for k in J2)
     for (n, m, bc), jc in sorted(J2.items()):
         if n == n2max and m >= 2:
@@ -981,6 +997,10 @@ def run(ctx):
         if rd.ok or rd.violated != inv:
             raise MachineryError("deviation run %s did not violate %s (violated=%r): invariant vacuous" % (cfg, inv, rd.violated))
         _tlc.cleanup(rd)
+    # ... and the deviation LegacyCorrelation is NOT refuted on circulant-symmetric kernels (a symmetric kernel cannot tell)
+    rs = ctx.tlc("TestProblems", cfg="TestProblems.dev_LegacyCorrelation_sym.cfg", workers=4, timeout=600, extra_modules=("Conv.tla",))
+    ctx.model_must_hold(rs, "TestProblems (LegacyCorrelation on symmetric kernels)")
+    _tlc.cleanup(rs)
     # 3. replay
     replay_conv(ctx, rc.cases, tier)
     kinds = replay_models(ctx, rt.cases, tier)
@@ -1077,8 +1097,9 @@ def replay(ctx, case):
                 import cuqi
                 P = np.array(case["psf"], dtype=float)
                 with _quiet(), _scripted():
-                    tp = cuqi.testproblem.Deconvolution1D(dim=case["n"], PSF=P, BC=BC1DOC[case["bc"]], phantom=np.arange(1.0, case["n"] + 1))
-                _compare_operator(ctx, "deconv1d", "n=%d/m=%d/psf=random/bc=%s" % (case["n"], case["m"], case["bc"]), case,
+                    tp = cuqi.testproblem.Deconvolution1D(dim=case["n"], PSF=P, phantom=np.arange(1.0, case["n"] + 1),
+                                                          **({"use_legacy": True} if case.get("legacy") else {"BC": BC1DOC[case["bc"]]}))
+                _compare_operator(ctx, "deconv1d_legacy" if case.get("legacy") else "deconv1d", "n=%d/m=%d/psf=random/bc=%s" % (case["n"], case["m"], case["bc"]), case,
                                   mat_from_J(jc["J"], P, case["n"]), tp.model, 1e-12)
         return
     rt = _replay_cases(ctx, "TestProblems")
